@@ -151,3 +151,36 @@ PROPS["C14"] = {"fn": c14, "level": "other",
     "claim": "Decides structurally that the RegexOptions object reaching every compile_inner call (whole-pattern and per-delegate) and every vm::run call originates from the user's options (RegexBuilder::new / Regex::new), never from a locally manufactured default (debug helpers excepted); that every field a RegexBuilder setter writes has its consumer on both construction paths; that the case-insensitive setting is handed to the parser (the VM compares literals byte-wise) and the inner engine is not asked to fold case a second time over the re-serialised pattern.",
     "note": "Field-based, not object-sensitive provenance; that (?i) itself is implemented correctly by parser/to_str is C19/C03 territory. The behaviour of regex-automata's size limits is the dependency's contract.",
     "explanation": "For each call site of compile_inner and vm::run the options argument is sliced backwards through parameters (to all resolved callers), struct fields (to all constructors and field writes) and clone/borrow wrappers until it reaches an origin; origins outside the allowed set are violations."}
+
+
+import fam_vm
+
+
+def c20(run, ctx):
+    fam_vm.own_state(run, ctx)
+    fam_vm.state_methods(run, ctx)
+    fam_vm.backtrack_cut(run, ctx)
+    fam_vm.atomic_arms(run, ctx)
+
+
+PROPS["C20"] = {"fn": c20, "level": "other",
+    "technique": "ownership rules over MIR (who writes State) + must-pass-through obligations on State::save/push/pop/stack_push/stack_pop and the key steps of backtrack_cut + atomic / negative-look-around arms of the interpreter",
+    "claim": "Decides the undo-log discipline structurally: State's fields are written only inside impl State; the branch stack and undo log grow only in push/save; every slot write is preceded by finding the slot in the current delta or logging its old value and counting it; push records (pc, ix, nsave) and opens an empty delta; pop replays exactly nsave entries and restores the stored nsave; the explicit stack lives in saves and is written only through save(); BeginAtomic pushes backtrack_count(), EndAtomic cuts to the popped value; FailNegativeLookAround pops to its own branch. For backtrack_cut the necessary key steps (truncate(count), undo-log bounds, first-entry-per-slot compaction, new nsave) are checked; that the algorithm as a whole restores the right values over all operation histories is not decided.",
+    "note": "Template balance of BeginAtomic/EndAtomic on every compiled path is C15's TMPL rule. Shape obligations are necessary conditions; a behaviour-preserving rewrite of these functions is reported as anchor-missing.",
+    "explanation": "MIR is scanned for writes and &mut borrows of State fields in every body; the HIR of each State method is path-enumerated and each obligation evaluated per path."}
+
+
+def c07(run, ctx):
+    fam_vm.limit_rule(run, ctx)
+    fam_vm.repeat_arms(run, ctx)
+    fam_vm.split_jmp_arms(run, ctx)
+    # State::push depth cap is part of termination in bounded memory
+    fam_vm.state_push_only(run, ctx)
+    fam_flow.limit_provenance(run, ctx)
+
+
+PROPS["C07"] = {"fn": c07, "level": "other",
+    "technique": "must-pass-through over the interpreter's backtrack tail (path facts + difference constraints), per-arm obligations on the four counted-repeat opcodes, compile_repeat template/guard rule, transfer-function soundness of min_size (XFER)",
+    "claim": "Decides structurally: every resumed branch is counted once and compared with the user's backtrack_limit so that the error is returned iff the count after the increment exceeds the limit; the branch stack is capped in State::push and vm::run passes a sane cap; the four Repeat*/RepeatEpsilon* arms implement hi-exit, empty-iteration guard, count+1, lo test and greedy/lazy order; every loop the compiler emits is counter-bounded, guarded by the empty-iteration check, or has a body the path condition proves non-empty; min_size is a true lower bound. Exact step counts and 'a tiny search never errors' as a numeric statement are not decided.",
+    "note": "Termination of a single delegate search is regex-automata's contract.",
+    "explanation": "The statements after the inner 'fail loop of vm::run are path-enumerated with branch conditions as facts; each repeat arm is path-enumerated against its obligation table; compile_repeat branches are checked against template kinds."}
